@@ -233,9 +233,51 @@ def main(chk):
                             if any(abs(x[0] - y[0]) > 2e-3 or abs(x[1] - y[1]) > 2e-3 or x[2] != y[2] for x, y in zip(a, b)):
                                 report("note_array_to_score.round_trip_beats", {"expected": a[:6], "got": b[:6]})
                                 break
+                    # beats only ("the beat times are given in quarters", docstring): the divisions have to be found from the
+                    # values themselves; onsets and durations in quarters must come back as they are
+                    naq = sc.parts[0].note_array()
+                    naq = naq[naq["duration_div"] > 0]
+                    subq = np.array([(float(x["onset_quarter"]), float(x["duration_quarter"]), int(x["pitch"]), int(x["voice"]), str(x["id"])) for x in naq],
+                                    dtype=[("onset_beat", "f4"), ("duration_beat", "f4"), ("pitch", "i4"), ("voice", "i4"), ("id", "U64")])
+                    p3 = note_array_to_score(subq, assign_note_ids=False)
+                    p3 = p3.parts[0] if hasattr(p3, "parts") else p3
+                    nq = p3.note_array()
+                    # (negative positions - a pickup - cannot be kept by a part that starts at 0: the function shifts them, documented)
+                    shift = min(0.0, float(subq["onset_beat"].min())) if len(subq) else 0.0
+                    a = sorted(zip(np.round(subq["onset_beat"] - shift, 3).tolist(), np.round(subq["duration_beat"], 3).tolist(), subq["pitch"].tolist()))
+                    b = sorted(zip(np.round(nq["onset_quarter"], 3).tolist(), np.round(nq["duration_quarter"], 3).tolist(), nq["pitch"].tolist()))
+                    if len(a) != len(b) or any(abs(x[0] - y[0]) > 2e-3 or abs(x[1] - y[1]) > 2e-3 or x[2] != y[2] for x, y in zip(a, b)):
+                        report("note_array_to_score.round_trip_beats_only", {"expected": a[:6], "got": b[:6]})
             except Exception as ex:
                 report("note_array_to_score.raises", {"exc": repr(ex)}, exc=type(ex).__name__)
-    chk.part("scores", generated=n, with_expected_tables=len(expected))
+    # --- inverse direction on arrays whose positions need a finer grid than their note values (syncopation: every
+    #     duration a whole number of quarters, onsets on halves, thirds or quarters of a quarter)
+    sync = 0
+    for den in (2, 3, 4, 6):
+        for trial in range(6 if chk.tier == "quick" else 40):
+            k = rng.randint(2, 6)
+            rows = []
+            t = rng.choice([0, 1]) * den + rng.randint(0, den - 1)        # in 1/den quarters
+            for j in range(k):
+                d = rng.choice([1, 2]) * den
+                rows.append((t / den, d / den, 60 + j, 1, "s%d" % j))
+                t += d + rng.choice([0, 0, 1, den])
+            subq = np.array(rows, dtype=[("onset_beat", "f4"), ("duration_beat", "f4"), ("pitch", "i4"), ("voice", "i4"), ("id", "U64")])
+            sync += 1
+            chk.count(1, validated=1)
+            try:
+                p3 = note_array_to_score(subq, assign_note_ids=False)
+                p3 = p3.parts[0] if hasattr(p3, "parts") else p3
+                nq = p3.note_array()
+                a = sorted(zip(np.round(subq["onset_beat"], 3).tolist(), np.round(subq["duration_beat"], 3).tolist(), subq["pitch"].tolist()))
+                b = sorted(zip(np.round(nq["onset_quarter"], 3).tolist(), np.round(nq["duration_quarter"], 3).tolist(), nq["pitch"].tolist()))
+                if len(a) != len(b) or any(abs(x[0] - y[0]) > 2e-3 or abs(x[1] - y[1]) > 2e-3 or x[2] != y[2] for x, y in zip(a, b)):
+                    chk.violation("s2c", "note_array_to_score.round_trip_beats_only", {"expected": a[:6], "got": b[:6], "grid": den},
+                                  replay={"rows": [list(map(str, r)) for r in rows]}, op="note_array_to_score", syncopated=True)
+            except Exception as ex:
+                chk.violation("s2c", "note_array_to_score.raises", {"exc": repr(ex), "rows": [list(map(str, r)) for r in rows]},
+                              replay={"rows": [list(map(str, r)) for r in rows]}, op="note_array_to_score", exc=type(ex).__name__, syncopated=True)
+    chk.part("scores", generated=n, with_expected_tables=len(expected), syncopated_beat_arrays=sync)
     c0 = cases[0]
     chk.sample({"score": c0["cid"], "parts": [{"cfg": p["cfg"], "notes": p["notes"][:3]} for p in c0["parts"]],
                 "expected_first_rows": expected.get(c0["cid"], {}).get("score_rows", [])[:2]})
